@@ -25,7 +25,15 @@ The translation is an abstract interpretation of the function body that forgets 
   plain data, names bound twice, class-body code, `__init__.py` rebinding (ModuleInfo.problems / ClassInfo.problems ->
   TranslatorError for every entry point that runs such code); the only statements left out are the `_VERIF_*` hooks listed WORD
   FOR WORD in policy.json; obligations of the committed list expected_obligations.json that are no longer generated are reported
-  by the generated obligation `expected_obligations_present`.
+  by the generated obligation `expected_obligations_present`;
+* (audit 4) every `*.py` file under persim/ is parsed — `_version.py` too, which must be the single statement
+  `__version__ = "<literal>"` (anything else there is code of the package init: every entry point refused); what is not parsed is
+  printed (`unparsedFiles`), and a file Python could import that is not `*.py` is a translation problem.  The `class` line of every
+  persim class with what its bases resolve to is reviewed text (policy.json `class_lines`); a persim BASE class that defines
+  `__init_subclass__` / `__set_name__` / `__class_getitem__` / `__new__` / attribute-lookup hooks (tables.CLASS_HOOK_METHODS) is an
+  unreviewed class decorator on every subclass unless policy.json `base_hooks_reviewed` holds its text; the problems of a persim
+  base class (metaclass, class-body code) are problems of its subclasses.  A module-level statement of file A that assigns an
+  attribute of file B refuses the entry points of A AND the assigned function / class / module of B (Project.check_patches).
 
 Nothing here decides the property: the emitted programs are checked by the Lean checker (`safe`), whose soundness is
 `PersimVerif.C19.checked_no_owned_write`; `wellFormed` (obligation `wf_<entry>`) checks that no instruction reads a variable
@@ -102,6 +110,16 @@ class ClassInfo:
         self.problems = []            # what makes the class's `def`s NOT what the class's attributes are at run time (audit R6)
         self.bad_decorators = {}      # id(FunctionDef) -> decorator text the translator does not model
         self.data_names = set()
+        # the `class` line as written (audit 4, IR-1): compared word for word with policy.json `class_lines` by Project.check_classes
+        heads = [ast.unparse(b) for b in node.bases] + [ast.unparse(k) for k in node.keywords]
+        self.line = "class %s%s" % (node.name, "(%s)" % ", ".join(heads) if heads else "")
+        self.hooks = {}               # name of tables.CLASS_HOOK_METHODS bound in the body -> text of (the last of) its definitions
+        for st in node.body:
+            for n in ([st.name] if isinstance(st, (ast.FunctionDef, ast.AsyncFunctionDef, ast.ClassDef)) else
+                      [x.id for x in ast.walk(st) if isinstance(x, ast.Name) and isinstance(x.ctx, ast.Store)] +
+                      [(a.asname or a.name).split(".")[0] for a in getattr(st, "names", []) if isinstance(st, (ast.Import, ast.ImportFrom))]):
+                if n in T.CLASS_HOOK_METHODS:
+                    self.hooks[n] = (self.hooks[n] + "\n" if n in self.hooks else "") + ast.unparse(st)
         reviewed = (policy or {}).get("decorators_reviewed", {}).get("%s.%s" % (module.name, node.name), [])
         for d in node.decorator_list:
             if ast.unparse(d) not in reviewed:
@@ -157,6 +175,9 @@ class ModuleInfo:
                                       # tuple bindings, `globals().update(…)`, code in `__init__.py`)
         self.bad_decorators = {}      # id(FunctionDef) -> decorator text
         self.hooks = {}               # reviewed `_VERIF_*` hook name -> set of reviewed guarded statements (policy.json)
+        self.unmodelled = []          # (index into self.problems, statement): module-level statements the translator does not model
+        self.patched = {}             # function name -> module-level statement (of any persim module) that assigns an attribute
+                                      # of this module named like the function, or an attribute of the function (audit 4)
         reviewed = (policy or {}).get("verif_hooks", {}).get(name, {})
         pkg = name.split(".")[:-1]
         bound, values, class_nodes, defs = {}, [], [], []
@@ -200,6 +221,7 @@ class ModuleInfo:
                 if n in reviewed and ast.unparse(st) == reviewed[n].get("binding"):
                     self.hooks[n] = set(reviewed[n].get("statements", []))
             else:
+                self.unmodelled.append((len(self.problems), st))
                 self.problems.append("module-level statement `%s` is not modelled" % ast.unparse(st)[:80].split("\n")[0])
                 for n in ast.walk(st):        # what it binds is module-level state all the same
                     if isinstance(n, ast.Name) and isinstance(n.ctx, ast.Store):
@@ -209,6 +231,7 @@ class ModuleInfo:
                 self.problems.append("module-level name `%s` is bound %d times (%s)" % (n, len(kinds), ", ".join(kinds)))
         for st in values:
             if not self.plain_data(st.value):
+                self.unmodelled.append((len(self.problems), st))
                 self.problems.append("module-level binding `%s` is not plain data (it may name or wrap a function)" % ast.unparse(st)[:80])
         for st in defs:
             self.check_def(st, self.problems)
@@ -257,15 +280,26 @@ class Project:
 
     def __init__(self, root=None, sources=None, policy=None):
         self.modules = {}
+        self.unparsed = []                # (path under persim/, reason): files found and not parsed — files Python does not
+                                          # import (printed: `unparsedFiles`); tables.UNPARSED_ALLOWED directories are not entered
+        self.file_problems = []           # files Python could import that are not `*.py` source: translation problems
         if sources is not None:
             for name, src in sources.items():
                 self.modules[name] = ModuleInfo(name, "<snippet:%s>" % name, src, policy)
         else:
             base = os.path.join(root, "persim")
             for d, dirs, files in sorted(os.walk(base)):
-                dirs.sort()
+                # directories of the allow-list are not entered (the allow-list itself is printed, not its instances, so that
+                # the generated text does not depend on whether an interpreter has left a `__pycache__` behind)
+                dirs[:] = sorted(x for x in dirs if x not in T.UNPARSED_ALLOWED)
                 for f in sorted(files):
-                    if not f.endswith(".py") or f in ("_version.py",):
+                    if not f.endswith(".py"):
+                        # every `*.py` file is parsed (also `_version.py`: audit 4, IR-2); nothing else is source
+                        relf = os.path.relpath(os.path.join(d, f), base)
+                        if f.endswith(T.IMPORTABLE_SUFFIXES):
+                            self.file_problems.append("persim/%s: a file Python can import that is not `*.py` source (not parsed)" % relf)
+                        else:
+                            self.unparsed.append((relf, "not a file Python imports (suffix not one of %s)" % " ".join(T.IMPORTABLE_SUFFIXES)))
                         continue
                     rel = os.path.relpath(os.path.join(d, f), base)[:-3].replace(os.sep, ".")
                     # `__init__.py` files are modules like any other (audit R6): what they define is public, what they
@@ -289,6 +323,235 @@ class Project:
                         if isinstance(n, ast.Attribute) and isinstance(n.ctx, ast.Store) and isinstance(n.value, ast.Name) \
                                 and n.value.id == a[0].arg:
                             self.instance_attrs.add(n.attr)
+        self.check_version_module()
+        self.check_patches()
+        self.check_classes(policy, require=sources is None)
+
+    # --- what no single module shows (audit 4)
+    def check_version_module(self):
+        """IR-2: `persim/_version.py` is run by `persim/__init__.py` on every import and has no entry point of its own: it
+        must be the single statement `__version__ = "<string literal>"`; anything else there is code of the package init"""
+        for name in sorted(self.modules):
+            if name.split(".")[-1] != T.VERSION_MODULE:
+                continue
+            m, body = self.modules[name], self.modules[name].tree.body
+            ok = len(body) == 1 and isinstance(body[0], ast.Assign) and single_name_target(body[0]) == "__version__" \
+                and isinstance(body[0].value, ast.Constant) and isinstance(body[0].value.value, str)
+            if ok:
+                continue
+            p = "%s must consist of the single statement `%s` (it is run by the package's __init__: every entry point is refused)" \
+                % (m.path, T.VERSION_STATEMENT)
+            m.problems.append(p)
+            init = self.modules.get(".".join(name.split(".")[:-1] + ["__init__"]))
+            if init is not None:
+                init.problems.append(p)
+
+    def resolve_expr(self, module, e, depth=0):
+        """what a module-level expression NAMES, as far as the translator can tell: a list of ('module', ModuleInfo) |
+        ('class', ClassInfo) | ('func', ModuleInfo, node) | ('data', ModuleInfo, name); [] for anything it cannot resolve
+        (a call result, a non-persim name).  `X.__dict__`, `vars(X)`, `sys.modules['persim.m']`, `globals()` are read through."""
+        if depth > 8:
+            return []
+        if isinstance(e, ast.Attribute) and e.attr == "__dict__":
+            return self.resolve_expr(module, e.value, depth + 1)
+        if isinstance(e, ast.Call) and isinstance(e.func, ast.Name) and e.func.id == "vars" and len(e.args) == 1:
+            return self.resolve_expr(module, e.args[0], depth + 1)
+        if isinstance(e, ast.Call) and isinstance(e.func, ast.Name) and e.func.id in ("globals", "locals") and not e.args:
+            return [("module", module)]
+        if isinstance(e, ast.Call) and e.args and isinstance(e.args[0], ast.Constant) and isinstance(e.args[0].value, str) \
+                and ast.unparse(e.func) in ("importlib.import_module", "import_module", "__import__"):
+            m = self.find_module(e.args[0].value) if e.args[0].value.split(".")[0] == "persim" else None
+            return [("module", m)] if m else []
+        if isinstance(e, ast.Subscript) and isinstance(e.slice, ast.Constant) and isinstance(e.slice.value, str):
+            if ast.unparse(e.value) in ("sys.modules", "modules"):
+                key = e.slice.value
+                m = self.find_module(key) if key.split(".")[0] == "persim" else None
+                return [("module", m)] if m else []
+            out = []                                  # `X.__dict__['name']`, `vars(X)['name']`, `globals()['name']`
+            if (isinstance(e.value, ast.Attribute) and e.value.attr == "__dict__") or isinstance(e.value, ast.Call):
+                for r in self.resolve_expr(module, e.value, depth + 1):
+                    out += self.resolve_attr(r, e.slice.value)
+            return out
+        if isinstance(e, ast.Subscript) and ast.unparse(e.value) in ("sys.modules", "modules") \
+                and ast.unparse(e.slice) == "__name__":
+            return [("module", module)]
+        if isinstance(e, ast.Name):
+            r = self.resolve_name(module, e.id)
+            if r is None or r[0] == "ext":
+                return []
+            out = [r]
+            imp = module.imports.get(e.id)
+            if r[0] == "module" and imp and imp[0] == "from":
+                # `from . import bottleneck as _b` is the submodule OR what the package's __init__ has bound to that name by then
+                # (`from .bottleneck import *` makes `persim.bottleneck` the function): both
+                pkg = self.find_module(imp[1])
+                x = self.resolve_name(pkg, imp[2]) if pkg is not None and pkg is not module else None
+                if x is not None and x[0] != "ext" and x not in out:
+                    out.append(x)
+            return out
+        if isinstance(e, ast.Attribute):
+            out = []
+            for r in self.resolve_expr(module, e.value, depth + 1):
+                out += self.resolve_attr(r, e.attr)
+            return out
+        return []
+
+    def resolve_attr(self, r, attr):
+        """the persim objects `r.attr` may be (for a package: the submodule AND what the package's __init__ binds to the name —
+        `persim.bottleneck` is the module until `from .bottleneck import *` makes it the function)"""
+        out = []
+        if r[0] == "module" and r[1] is not None:
+            m = r[1]
+            if m.name.split(".")[-1] == "__init__":
+                sub = self.modules.get(".".join(m.name.split(".")[:-1] + [attr])) or \
+                    self.modules.get(".".join(m.name.split(".")[:-1] + [attr, "__init__"]))
+                if sub is not None:
+                    out.append(("module", sub))
+            x = self.resolve_name(m, attr)
+            if x is not None and x[0] != "ext" and x not in out:
+                out.append(x)
+        elif r[0] == "class":
+            hit = self.lookup_method(r[1], attr)
+            if hit:
+                out.append(("method", hit[0], hit[1]))
+        return out
+
+    def assigned_objects(self, module, st):
+        """(text, [resolved persim objects]) for every attribute / item STORE (or deletion) the module-level statement `st`
+        makes on something other than a plain name: `X.a = v`, `X.a op= v`, `del X.a`, `X[k] = v`, `for X.a in …`,
+        `setattr(X, 'a', v)` / `delattr`, `X.__setattr__('a', v)`, `object.__setattr__(X, 'a', v)`, `X.__dict__.update(…)` …"""
+        out = []
+
+        def add(node, owner, attr):
+            objs = self.resolve_expr(module, owner)
+            hits = []
+            for r in objs:
+                if attr is None:
+                    hits.append(r)
+                else:
+                    sub = self.resolve_attr(r, attr)
+                    # a function attribute (`f.__code__ = …`), an attribute the target does not define yet: the owner itself
+                    hits += [x for x in sub if x[0] in ("func", "class", "method")] or [r + ("attr", attr)]
+            out.append((ast.unparse(node)[:70].split("\n")[0], hits))
+
+        for n in ast.walk(st):
+            if isinstance(n, ast.Attribute) and isinstance(n.ctx, (ast.Store, ast.Del)):
+                add(n, n.value, n.attr)
+            elif isinstance(n, ast.Subscript) and isinstance(n.ctx, (ast.Store, ast.Del)):
+                k = n.slice.value if isinstance(n.slice, ast.Constant) and isinstance(n.slice.value, str) else None
+                add(n, n.value, k)
+            elif isinstance(n, ast.Call):
+                f = ast.unparse(n.func)
+                a = n.args
+                const = lambda i: a[i].value if len(a) > i and isinstance(a[i], ast.Constant) and isinstance(a[i].value, str) else None
+                if f in ("setattr", "delattr") and a:
+                    add(n, a[0], const(1))
+                elif f.split(".")[-1] in ("__setattr__", "__delattr__") and f.split(".")[0] in ("object", "type") and a:
+                    add(n, a[0], const(1))
+                elif isinstance(n.func, ast.Attribute) and n.func.attr in ("__setattr__", "__delattr__", "__setitem__", "__delitem__"):
+                    add(n, n.func.value, const(0))
+                elif isinstance(n.func, ast.Attribute) and n.func.attr in ("update", "setdefault", "pop", "popitem", "clear", "__ior__"):
+                    add(n, n.func.value, None)
+        return out
+
+    def check_patches(self):
+        """a module-level statement of file A that assigns an attribute of ANOTHER persim module / class / function refuses the
+        entry points of A (ModuleInfo.problems) AND the assigned target (audit 4, note on wording).  The problem's text says
+        exactly what is refused."""
+        for mname in sorted(self.modules):
+            m = self.modules[mname]
+            for idx, st in m.unmodelled:
+                text = ast.unparse(st)[:80].split("\n")[0]
+                refused, unresolved = [], []
+                for what, hits in self.assigned_objects(m, st):
+                    if not hits:
+                        unresolved.append(what)
+                    for r in hits:
+                        why = "assigned by the module-level statement `%s` of %s" % (text, m.path)
+                        extra = r[-2:] if len(r) > 2 and r[-2] == "attr" else None
+                        r = r[:-2] if extra else r
+                        if r[0] == "func" or (r[0] == "module" and extra and extra[1] in r[1].funcs):
+                            tm, fname = (r[1], r[2].name) if r[0] == "func" else (r[1], extra[1])
+                            tm.patched.setdefault(fname, "%s is %s" % (fname, why))
+                            refused.append("%s.%s" % (tm.name, fname))
+                        elif r[0] in ("class", "method"):
+                            c = r[1]
+                            p = "%s%s is %s" % (c.name, "." + r[2].name if r[0] == "method" else "", why)
+                            if p not in c.problems:
+                                c.problems.append(p)
+                            refused.append("class %s.%s" % (c.module.name, c.name))
+                        elif r[1] is not m or r[0] == "data":
+                            tm = r[1]
+                            p = "an attribute of this module%s is %s" % (" (`%s`)" % (extra[1] if extra else r[2]) if (extra or r[0] == "data") else "", why)
+                            if tm is not m and p not in tm.problems:
+                                tm.problems.append(p)
+                            if tm is not m:
+                                refused.append("every entry point of %s" % tm.path)
+                refused = sorted(set(refused), key=refused.index)
+                has_call = any(isinstance(n, ast.Call) for n in ast.walk(st))
+                m.problems[idx] += " [refused: every entry point of %s%s%s]" % (
+                    m.path, "".join("; " + x for x in refused),
+                    "; what `%s` assigns is not resolved to a persim attribute" % unresolved[0] if unresolved else
+                    ("; what the calls it makes change is not resolved" if has_call and not refused else ""))
+
+    def base_name(self, cls, b):
+        """what a base class of the `class` line resolves to: `persim.<module>.<Class>`, the dotted library name, or `?<text>`"""
+        parts, e = [], b
+        while isinstance(e, ast.Attribute):
+            parts.insert(0, e.attr)
+            e = e.value
+        if not isinstance(e, ast.Name):
+            return "?" + ast.unparse(b)
+        r = self.resolve_name(cls.module, e.id)
+        if r is None:
+            return ("builtins." if e.id in BUILTIN_NAMES else "?") + ast.unparse(b)
+        for a in parts:
+            if r is not None and r[0] == "module":
+                r = (self.resolve_attr(r, a) or [None])[-1]
+            elif r is not None and r[0] == "ext":
+                r = ("ext", r[1] + "." + a)
+            else:
+                return "?" + ast.unparse(b)
+        if r is None:
+            return "?" + ast.unparse(b)
+        if r[0] == "class":
+            return "persim.%s.%s" % (r[1].module.name, r[1].name)
+        if r[0] == "ext":
+            return r[1]
+        return "?" + ast.unparse(b)
+
+    def check_classes(self, policy, require):
+        """IR-1: (1) the `class` line of every persim class and what its bases resolve to are the reviewed entry of policy.json
+        `class_lines` (`require`: on a real tree; in a snippet only when the snippet's policy has the key); (2) a persim BASE
+        class that defines one of tables.CLASS_HOOK_METHODS is an unreviewed class decorator on every subclass, unless
+        `base_hooks_reviewed` holds the definition's text; (3) the problems of a persim base class are problems of its subclasses"""
+        policy = policy or {}
+        lines = policy.get("class_lines")
+        hooks_ok = policy.get("base_hooks_reviewed", {})
+        classes = [c for n in sorted(self.modules) for c in self.modules[n].classes.values()]
+        for c in classes:
+            key = "%s.%s" % (c.module.name, c.name)
+            c.resolved_bases = [self.base_name(c, b) for b in c.node.bases]
+            if lines is not None or require:
+                want = (lines or {}).get(key)
+                if want is None:
+                    c.problems.append("class %s is not in policy.json class_lines (its `class` line and bases are not reviewed)" % key)
+                elif want.get("line") != c.line or list(want.get("bases", [])) != c.resolved_bases:
+                    c.problems.append("`%s` with bases [%s] is not the reviewed class line `%s` with bases [%s] of policy.json class_lines"
+                                      % (c.line, ", ".join(c.resolved_bases), want.get("line"), ", ".join(want.get("bases", []))))
+        own = {id(c): list(c.problems) for c in classes}
+        for c in classes:
+            for b in self.mro(c):
+                bkey = "%s.%s" % (b.module.name, b.name)
+                for h in sorted(b.hooks):
+                    if b is c and h in T.CLASS_SELF_HOOKS and hooks_ok.get(bkey, {}).get(h) != b.hooks[h]:
+                        c.problems.append("the class defines `%s`, which decides what the attributes of its instances are, and its text is "
+                                          "not in policy.json base_hooks_reviewed" % h)
+                    elif b is not c and hooks_ok.get(bkey, {}).get(h) != b.hooks[h]:
+                        c.problems.append("base class %s defines `%s`, which acts on every subclass like a class decorator, and its text "
+                                          "is not in policy.json base_hooks_reviewed" % (bkey, h))
+                for p in own[id(b)] if b is not c else []:
+                    c.problems.append("base class %s: %s" % (bkey, p))
 
     def package_inits(self, module):
         """the `__init__` modules of the packages `module` lives in (outermost first)"""
@@ -649,6 +912,8 @@ class Frame:
             if what is not None and what.problems:
                 raise TranslatorError("%s: %s" % (getattr(what, "path", None) or "%s.%s" % (what.module.name, what.name),
                                                   "; ".join(what.problems[:3])))
+        if cls is None and getattr(func, "name", None) in module.patched and module.funcs.get(func.name) is func:
+            raise TranslatorError("%s (%s)" % (module.patched[func.name], module.path))
         for owner in (module, cls):
             if owner is not None and id(func) in owner.bad_decorators:
                 raise TranslatorError("decorator `%s` of %s is not modelled (%s)" % (owner.bad_decorators[id(func)][:60], self.fname, module.path))
@@ -2338,6 +2603,7 @@ def translation_problems(project, results, policy):
                 out.append("%s (%s): write not in policy.json reviewed_unsafe_writes: %s" % (r.name, r.kind, text[:90]))
         if not r.globals_ok or not r.wf:
             out.append("%s (%s): module-level state / RNG / ill-formed: %s" % (r.name, r.kind, r.classification))
+    out += list(getattr(project, "file_problems", []))
     out = sorted(set(out), key=out.index)
     with_entry = {r.ep.module.name for r in results}
     for name in sorted(project.modules):
@@ -2345,6 +2611,9 @@ def translation_problems(project, results, policy):
         probs = list(m.problems) + ["class %s: %s" % (c.name, p) for c in m.classes.values() for p in c.problems]
         if probs and (name not in with_entry or name.split(".")[-1] == "__init__"):
             out.append("module %s: %s" % (name, probs[0]))
+        for fn in sorted(m.patched):          # a patched function that is not an entry point (private): nothing else fails for it
+            if not any(r.ep.module is m and r.ep.cls is None and r.ep.node.name == fn for r in results):
+                out.append("module %s: %s" % (name, m.patched[fn]))
     return out
 
 
@@ -2396,6 +2665,13 @@ def generate(root, lean_dir, policy=None):
                "modules whose module-level code the translator does not model: must be empty -/")
     top.append("def translationProblems : List String := [%s]" % ", ".join('"%s"' % p.replace("\\", "/").replace('"', "'") for p in problems))
     top.append("theorem expected_obligations_present : translationProblems = [] := by decide")
+    q = lambda x: x.replace("\\", "/").replace('"', "'")
+    top.append("\n/-- the ONLY names under persim/ the translator skips without looking, with the reason (harness/translator/tables.py "
+               "UNPARSED_ALLOWED): every `*.py` file is parsed, `_version.py` included -/")
+    top.append("def unparsedAllowed : List (String × String) := [%s]" % ", ".join('("%s", "%s")' % (q(a), q(b)) for a, b in sorted(T.UNPARSED_ALLOWED.items())))
+    top.append("/-- the other files found under persim/ that are not `*.py`: not parsed because Python does not import them (a file it "
+               "could import — %s — is listed in `translationProblems` instead) -/" % " ".join(T.IMPORTABLE_SUFFIXES))
+    top.append("def unparsedFiles : List (String × String) := [%s]" % ", ".join('("%s", "%s")' % (q(a), q(b)) for a, b in project.unparsed))
     top.append("\nend PersimVerif.Generated")
     write_if_changed(os.path.join(gdir, "ApiIR.lean"), "\n".join(top) + "\n")
     return project, tr, results
@@ -2460,6 +2736,16 @@ HOOK_POLICY = {"constants": [], "verif_hooks": {"snippet": {"_VERIF_T": {
     "decorators_reviewed": {"snippet.C": ["reviewed(version='1')"]}}
 HOOK = "_VERIF_T = None\ndef f(a):\n"
 NPI = "import numpy as np\n"
+
+# audit 4 (IR-1 / IR-2) building blocks
+ISUB = "class _B:\n    def __init_subclass__(cls, **kw):\n        g = cls.m\n        def w(self, a):\n            a.sort()\n            return g(self, a)\n        cls.m = w\n"
+ISUB_OK = "class _B:\n    def __init_subclass__(cls, **kw):\n        super().__init_subclass__(**kw)\n"
+ISUB_OK_TEXT = "def __init_subclass__(cls, **kw):\n    super().__init_subclass__(**kw)"
+CSUB = "class C(_B):\n    def m(self, a):\n        return a + 1\n"
+CL_B_C = {"snippet._B": {"line": "class _B", "bases": []}, "snippet.C": {"line": "class C(_B)", "bases": ["persim.snippet._B"]}}
+PKG_INIT = "from ._version import __version__\nfrom .heat import *\n"
+PKG_HEAT = "__all__ = ['heat']\ndef heat(a):\n    return a + 1\n"
+PATCH_OTHER = "from . import heat as _h\n_o = _h.heat\ndef _w(a):\n    a.sort()\n    return _o(a)\n_h.heat = _w\ndef g(a):\n    return a\n"
 
 SNIPPETS = [
     # (verdict expected from the checker, entry, source)
@@ -2712,4 +2998,53 @@ SNIPPETS = [
     ("bad", "f", NPI + "def f(a):\n    np.random.shuffle(x=a)\n", {"constants": [], "rng_allowed": ["snippet.f"]}),
     ("bad", "f", "import random\ndef f(a, b):\n    random.choice([a, b])[0, 0] = 1\n", {"constants": [], "rng_allowed": ["snippet.f"]}),
     ("good", "f", "import random\n" + NPI + "def f(a, b):\n    c = np.copy(random.choice([a, b]))\n    c[0, 0] = 1\n    np.random.shuffle(c)\n    return c\n", {"constants": [], "rng_allowed": ["snippet.f"]}),
+    # ================= audit 4
+    # --- IR-1: a persim BASE class with a hook that acts on its subclasses (`__init_subclass__`, `__set_name__` descriptors,
+    #     `__class_getitem__`, a metaclass, attribute-lookup hooks) is an unreviewed class decorator on every subclass; the `class`
+    #     line with what its bases resolve to is reviewed text (policy.json `class_lines`, `base_hooks_reviewed`)
+    ("refused", "C.m", ISUB + CSUB),
+    ("refused", "C.m", ISUB + CSUB, {"constants": [], "class_lines": CL_B_C}),
+    ("good", "C.m", ISUB_OK + CSUB, {"constants": [], "class_lines": CL_B_C, "base_hooks_reviewed": {"snippet._B": {"__init_subclass__": ISUB_OK_TEXT}}}),
+    ("refused", "C.m", ISUB + CSUB, {"constants": [], "class_lines": CL_B_C, "base_hooks_reviewed": {"snippet._B": {"__init_subclass__": ISUB_OK_TEXT}}}),
+    ("good", "C.m", "class _B:\n    def helper(self, a):\n        return a\n" + CSUB),
+    ("good", "C.m", "class _B:\n    def helper(self, a):\n        return a\n" + CSUB, {"constants": [], "class_lines": CL_B_C}),
+    ("bad", "C.m", "class _B:\n    def helper(self, a):\n        a.sort()\n        return a\nclass C(_B):\n    def m(self, a):\n        return self.helper(a)\n", {"constants": [], "class_lines": CL_B_C}),
+    ("refused", "C.m", "class _B:\n    pass\nclass _B2:\n    pass\nclass C(_B2):\n    def m(self, a):\n        return a + 1\n",
+     {"constants": [], "class_lines": dict(CL_B_C, **{"snippet._B2": {"line": "class _B2", "bases": []}})}),
+    ("refused", "C.m", "class _B:\n    pass\nclass C(_B, object):\n    def m(self, a):\n        return a + 1\n", {"constants": [], "class_lines": CL_B_C}),
+    ("refused", "C.m", "class C:\n    def m(self, a):\n        return a + 1\n", {"constants": [], "class_lines": {}}),
+    ("refused", "C.m", "class _M(type):\n    pass\nclass _B(metaclass=_M):\n    pass\n" + CSUB),
+    ("refused", "C.m", "class _D:\n    def __set_name__(self, owner, name):\n        owner.m = lambda s, a: a.sort()\nclass _B:\n    x = _D()\n" + CSUB),
+    ("refused", "C.m", "class _B:\n    def __class_getitem__(cls, k):\n        return cls\n" + CSUB),
+    ("refused", "C.m", "class _B:\n    def __getattribute__(self, n):\n        return object.__getattribute__(self, n)\n" + CSUB),
+    ("refused", "C.m", "class _B:\n    def __new__(cls, *a):\n        return object.__new__(cls)\n" + CSUB),
+    ("refused", "C.m", "class _A:\n    def __init_subclass__(cls, **kw):\n        cls.m = None\nclass _B(_A):\n    pass\n" + CSUB),
+    ("refused", "C.m", "class C:\n    def __getattribute__(self, n):\n        return object.__getattribute__(self, n)\n    def m(self, a):\n        return a + 1\n"),
+    ("good", "C.m", "from lib import Mixin\nclass C(Mixin):\n    def m(self, a):\n        return a + 1\n",
+     {"constants": [], "class_lines": {"snippet.C": {"line": "class C(Mixin)", "bases": ["lib.Mixin"]}}}),
+    ("refused", "C.m", "from lib2 import Mixin\nclass C(Mixin):\n    def m(self, a):\n        return a + 1\n",
+     {"constants": [], "class_lines": {"snippet.C": {"line": "class C(Mixin)", "bases": ["lib.Mixin"]}}}),
+    ("refused", "mod.C.m", {"__init__": "", "mix": "class Mixin:\n    def __init_subclass__(cls, **kw):\n        cls.m = lambda s, a: a.sort()\n",
+                            "mod": "from .mix import Mixin\nclass C(Mixin):\n    def m(self, a):\n        return a + 1\n"},
+     {"constants": [], "class_lines": {"mod.C": {"line": "class C(Mixin)", "bases": ["lib.Mixin"]}, "mix.Mixin": {"line": "class Mixin", "bases": []}}}),
+    # --- IR-2: `_version.py` is parsed like every other module and must be the single statement `__version__ = "<literal>"`
+    ("good", "heat.heat", {"__init__": PKG_INIT, "heat": PKG_HEAT, "_version": '__version__ = "0.3.7"\n'}),
+    ("refused", "heat.heat", {"__init__": PKG_INIT, "heat": PKG_HEAT,
+                              "_version": '__version__ = "0.3.7"\nfrom . import heat as _h\n_o = _h.heat\ndef _w(a):\n    a.sort()\n    return _o(a)\n_h.heat = _w\n'}),
+    ("refused", "heat.heat", {"__init__": PKG_INIT, "heat": PKG_HEAT, "_version": '__version__ = "0.3.7"\n__all__ = ["__version__"]\n'}),
+    ("refused", "heat.heat", {"__init__": PKG_INIT, "heat": PKG_HEAT, "_version": '__version__ = str(1)\n'}),
+    ("refused", "heat.heat", {"__init__": PKG_INIT, "heat": PKG_HEAT, "_version": 'def _v():\n    return "1"\n'}),
+    ("refused", "heat.heat", {"__init__": PKG_INIT, "heat": PKG_HEAT, "_version": 'import numpy as np\n__version__ = "1"\n'}),
+    # --- a module-level statement of file A that assigns an attribute of file B refuses the entries of A AND the assigned target
+    ("refused", "heat.heat", {"__init__": "from .heat import *\n", "heat": PKG_HEAT, "other": PATCH_OTHER, "third": "def k(a):\n    return a + 2\n"}),
+    ("refused", "other.g", {"__init__": "from .heat import *\n", "heat": PKG_HEAT, "other": PATCH_OTHER, "third": "def k(a):\n    return a + 2\n"}),
+    ("good", "third.k", {"__init__": "from .heat import *\n", "heat": PKG_HEAT, "other": PATCH_OTHER, "third": "def k(a):\n    return a + 2\n"}),
+    ("refused", "third.k2", {"__init__": "from .heat import *\n", "heat": PKG_HEAT, "other": PATCH_OTHER,
+                             "third": "from .heat import heat\ndef k2(a):\n    return heat(a)\n"}),
+    ("refused", "heat.heat", {"__init__": "", "heat": PKG_HEAT, "other": "import sys\ndef _w(a):\n    a.sort()\nsetattr(sys.modules['persim.heat'], 'heat', _w)\n"}),
+    ("refused", "heat.heat", {"__init__": "", "heat": PKG_HEAT, "other": "from .heat import heat as _h\ndef _w(a):\n    a.sort()\n_h.__code__ = _w.__code__\n"}),
+    ("refused", "heat.heat", {"__init__": "", "heat": PKG_HEAT, "other": "import persim.heat\ndef _w(a):\n    a.sort()\npersim.heat.__dict__['heat'] = _w\n"}),
+    ("refused", "mod.C.m", {"__init__": "", "mod": "class C:\n    def m(self, a):\n        return a + 1\n",
+                            "other": "from .mod import C as _C\ndef _w(self, a):\n    a.sort()\n_C.m = _w\n"}),
+    ("good", "heat.heat", {"__init__": "", "heat": PKG_HEAT, "other": NPI + "np.seterr(all='ignore')\ndef g(a):\n    return a\n"}),
 ]
